@@ -3,6 +3,7 @@ use crate::engine::Check;
 pub mod c01;
 pub mod c02;
 pub mod c03;
+pub mod c04;
 pub mod c05;
 pub mod c06;
 pub mod c07;
@@ -28,6 +29,7 @@ pub fn build(id: &str, tier: &str) -> Option<Check> {
         "C01" => c01::build(quick),
         "C02" => c02::build(quick),
         "C03" => c03::build(quick),
+        "C04" => c04::build(quick),
         "C05" => c05::build(quick),
         "C06" => c06::build(quick),
         "C07" => c07::build(quick),
